@@ -898,7 +898,8 @@ class parser(object):
             if len_li == 4:
                 res.minute = int(s[2:])
 
-        elif len_li == 6 or (len_li > 6 and tokens[idx].find('.') == 6):
+        elif ((len_li == 6 and '.' not in value_repr) or
+              (len_li > 6 and tokens[idx].find('.') == 6)):
             # YYMMDD or HHMMSS[.ss]
             s = tokens[idx]
 
@@ -914,7 +915,7 @@ class parser(object):
                 res.minute = int(s[2:4])
                 res.second, res.microsecond = self._parsems(s[4:])
 
-        elif len_li in (8, 12, 14):
+        elif len_li in (8, 12, 14) and '.' not in value_repr:
             # YYYYMMDD
             s = tokens[idx]
             ymd.append(s[:4], 'Y')
